@@ -90,6 +90,7 @@ Fixpoint t_msg (m : tmsg) : tm :=
   | M_OnKill k r p => TL [TN (kind_code K_OnKill); t_eref k; TB r; tbool p]
   | M_OnKilled r => TL [TN (kind_code K_OnKilled); t_eref r]
   | M_PipeResult id m' e => TL [TN (kind_code K_PipeResult); TB id; t_msg m'; t_perr e]
+  | M_PipeResultNil id e => TL [TN (kind_code K_PipeResult); TB id; TL []; t_perr e]
   | M_Pong p r => TL [TN (kind_code K_Pong); tz p; tz r]
   | M_Error c t => TL [TN (kind_code K_Error); tz c; TB t]
   | M_Command c => TL [TN (kind_code K_Command); TN c]
@@ -198,7 +199,10 @@ Fixpoint get_msg (t : tm) : option tmsg :=
       if is_kind c K_OnKill then
         let? k := get_eref a in let? r := get_b b in let? p := get_bool d in Some (M_OnKill k r p)
       else if is_kind c K_PipeResult then
-        let? id := get_b a in let? m := get_msg b in let? e := get_perr d in Some (M_PipeResult id m e)
+        match b with
+        | TL [] => let? id := get_b a in let? e := get_perr d in Some (M_PipeResultNil id e)   (* nil Message *)
+        | _ => let? id := get_b a in let? m := get_msg b in let? e := get_perr d in Some (M_PipeResult id m e)
+        end
       else if is_kind c K_GetViewResponse then
         let? v := get_opt get_view a in let? q := get_bool b in let? l := get_b d in Some (M_GetViewResponse v q l)
       else None
